@@ -79,12 +79,21 @@ def make_history(r):
     ops, targets = [], ["D"]
     declared = {"D": {}}
     n = r.randint(3, 40)
-    for _ in range(n):
+    copy_at = r.randint(2, n) if r.random() < 0.15 else -1
+    for step in range(n):
+        if step == copy_at:
+            # the document is deep-copied; original and copy then go their own ways (what one learns, the other must not know)
+            ops.append(["deepcopy"])
+            for t0 in list(targets):
+                targets.append(t0 + "~")
+                declared[t0 + "~"] = dict(declared[t0])
+            declared["D~"] = dict(declared["D"])
+            continue
         x = r.random()
         t = r.choice(targets)
-        view = dict(declared["D"])
+        view = dict(declared["D~" if t.endswith("~") else "D"])
         view.update(declared[t])
-        if x < 0.08 and len(targets) < 4:
+        if x < 0.08 and len(targets) < 4 and copy_at < 0:
             b = "B%d" % (len(targets) - 1)
             ops.append(["bundle", b, rand_x(r, view, None)])
             targets.append(b)
@@ -118,7 +127,8 @@ def shape(ops, outcomes):
         tag = op[0]
         if op[0] == "vqn" or op[0] == "bundle":
             tag += ":" + op[2]["form"] + ("0" if op[2].get("prefix") == "" else "")
-        sig.append("%s@%s%s" % (tag, op[1][0], "" if out == "ok" else "!"))
+        where = (op[1][0] + ("~" if op[1].endswith("~") else "")) if len(op) > 1 else "-"
+        sig.append("%s@%s%s" % (tag, where, "" if out == "ok" else "!"))
     return "|".join(sig)
 
 
@@ -144,6 +154,8 @@ def run_history(ctx, idx, case):
                                     "witness": {"clause": "c", "at": "container method"}})
                 seen.setdefault(printed, res.uri)
         monitors.ns_full_check(st.doc)   # (b), (c) over all scopes and all names so far
+        if "D~" in st.tg:
+            monitors.ns_full_check(st.tg["D~"])
         if case["mode"] == "program":
             monitors.ns_held_check(st.doc)   # (c) over the names the records hold
         for mon, what, wit in hub.drain():
